@@ -13,9 +13,11 @@ SPEC = dict(
                 "(c) one producer and one consumer thread on the ring buffers under ThreadSanitizer, which judges the C++ "
                 "memory model that x86 hides. Exploration is the right level: the property quantifies over all interleavings; "
                 "this finds counterexamples and never proves their absence."),
-    level_note=("Trusts ThreadSanitizer's model of the C++ memory model for the executed interleavings, the kernel scheduler to "
-                "run a runnable thread within 4 s (bounded-wait conclusions must additionally reproduce 3/3), and that a delay "
-                "injected at a pthread_cond_wait/pthread_mutex_lock entry is a legal schedule."),
+    level_note=("Trusts ThreadSanitizer's model of the C++ memory model for the executed interleavings, and that a delay injected "
+                "at a pthread_cond_wait/pthread_mutex_lock entry is a legal schedule. Bounded-wait conclusions need 4 s of wall "
+                "time AND >= 1000 wake-ups of an in-process canary thread (1 ms pacer + condition variable) since the wake-up "
+                "condition was established - so a starved or paused machine extends the wait instead of producing a verdict - "
+                "and must additionally reproduce 3/3."),
     technique=("model-based property testing (deque reference), multi-threaded plan executors with seeded schedule "
                "perturbation (link-time interposition of pthread_cond_*/pthread_mutex_lock), ThreadSanitizer"),
     rule=("bq_model/ring_model: history of up to 240/260 operations drawn uniformly from the whole API (single/batch push and "
@@ -33,7 +35,8 @@ SPEC = dict(
                  "clear()/resize() only in quiescence, size() sampled only by the producer or the consumer thread",
                  "DynamicRingBuffer::resize() to a capacity smaller than the item count drops the oldest items - documented, "
                  "modelled (drop count and survivors are checked), not counted as a loss",
-                 "a runnable thread is scheduled within 4 s even when the machine is loaded (bounded waits; must reproduce 3/3)"],
+                 "a thread that was woken through a condition variable returns within the time in which a canary thread of the "
+                 "same process is woken 1000 times the same way (and at least 4 s); such verdicts must reproduce 3/3"],
     units=[
         pbt("c10_queues", "harness/c10_queues.cpp", dict(
             bq_model=P(5000, 25000, 3, 4),
